@@ -314,13 +314,13 @@ func c16Property(t *rapid.T) {
 			n := rapid.IntRange(1, 3).Draw(t, "n")
 			used := map[int]bool{}
 			type req struct {
-				p    *ibtpPair
-				idx  uint64
-				tx   pb.Transaction
-				src  string
-				dst  string
-				dstS string
-				srcS string
+				p       *ibtpPair
+				idx     uint64
+				tx      pb.Transaction
+				src     string
+				dst     string
+				dstS    string
+				srcS    string
 				blocked bool
 			}
 			var reqs []*req
